@@ -236,7 +236,8 @@ Section Keys.
     destruct (cls classes (n_cls nd)) as [tc|e] eqn:Ec; [|discriminate].
     destruct (task_key H (n_ns nd) (n_params nd) inkeys) as [key|e] eqn:Ek; [|discriminate].
     injection Hget as Hreg.
-    set (o := {| o_cls := n_cls nd; o_cfg := n_cfg nd; o_ns := n_ns nd; o_fullname := name;
+    set (o := {| o_cls := n_cls nd; o_cfg := n_cfg nd; o_ns := n_ns nd; o_cfgname := n_cfgname nd;
+                 o_ctxname := n_ctxname nd; o_fullname := name;
                  o_params := n_params nd; o_inkeys := inkeys; o_key := key; o_inputs := [] |}) in *.
     destruct (register st1 (c_slug tc) key name o) as [st2 id2] eqn:Er. injection Hreg as <- <-.
     destruct Hg1 as [Hr1 Hn1].
